@@ -184,4 +184,26 @@ theorem arm64_seq (dx : BitVec 64) (m : A64.Mach) (l0 l1 l2 l3 r0 r1 r2 r3 : Bit
   refine ⟨fun r h26 hr => ?_, trivial⟩
   simp [h26, hr]
 
+/-! ### rel32 jump: single step, byte shape of the relative form, position dependence -/
+
+theorem exec_e9 (d : BitVec 32) (m : X86.Mach) :
+    X86.exec [0xe9#8, BitVec.setWidth 8 d, BitVec.setWidth 8 (d >>> 8), BitVec.setWidth 8 (d >>> 16),
+      BitVec.setWidth 8 (d >>> 24)] m = some { m with rip := m.rip + 5 + BitVec.signExtend 64 d } := by
+  simp [X86.exec, bytes32]
+
+theorem origin_rel_bytes (f t : BitVec 64) (h : Gen.Amd64.relative f t = true) :
+    ∃ d : BitVec 32, Gen.Amd64.jmpToOriginFunctionValue f t =
+      [0xe9#8, BitVec.setWidth 8 d, BitVec.setWidth 8 (d >>> 8), BitVec.setWidth 8 (d >>> 16),
+        BitVec.setWidth 8 (d >>> 24)] := by
+  simp only [Gen.Amd64.jmpToOriginFunctionValue, h, if_true]
+  split
+  · exact ⟨_, rfl⟩
+  · exact ⟨_, rfl⟩
+
+/-- `b + c + s` in terms of `a + c + s`: moving the start of a relative jump moves its landing by the same amount -/
+theorem shift_start (a b c s : BitVec 64) : b + c + s = (a + c + s) + (b - a) := by
+  rw [BitVec.add_comm (a + c + s), BitVec.add_assoc a, BitVec.add_comm a, ← BitVec.add_assoc (b - a)]
+  rw [BitVec.add_comm (b - a), BitVec.add_assoc (c + s), BitVec.sub_add_cancel, BitVec.add_comm (c + s),
+    BitVec.add_assoc]
+
 end C15L
